@@ -99,7 +99,7 @@ class DstWorld(World):
 
     def pdu_conf(self, st, **over):
         c = self.c
-        kw = dict(src=(1, c["idw_s"]), dst=(2, c["idw_d"]), seq=(st.seq, c["seqw"]), mode=c["mode"], crc=c["crc_flag"])
+        kw = dict(src=(c["idv_s"], c["idw_s"]), dst=(c["idv_d"], c["idw_d"]), seq=(st.seq, c["seqw"]), mode=c["mode"], crc=c["crc_flag"])
         kw.update(over)
         return pdus.conf(**kw)
 
@@ -142,7 +142,7 @@ class DstWorld(World):
 
     def cur_tid(self, st):
         c = self.c
-        return TransactionId(UnsignedByteField(1, c["idw_s"]), UnsignedByteField(st.seq, c["seqw"]))
+        return TransactionId(UnsignedByteField(c["idv_s"], c["idw_s"]), UnsignedByteField(st.seq, c["seqw"]))
 
     def apply(self, st, ev):
         out = {}
@@ -167,7 +167,7 @@ class DstWorld(World):
             out["dt"] = delta
             obs, msgs = {}, []
         elif k == "cancel":
-            tid = self.cur_tid(st) if ev[1] == "right" else TransactionId(UnsignedByteField(1, self.c["idw_s"]), UnsignedByteField(st.seq + 7, self.c["seqw"]))
+            tid = self.cur_tid(st) if ev[1] == "right" else TransactionId(UnsignedByteField(self.c["idv_s"], self.c["idw_s"]), UnsignedByteField(st.seq + 7, self.c["seqw"]))
             obs, msgs, ret = ent.call(ent.h.cancel_request, tid)
             out["ret"] = ret
         elif k == "reject":
